@@ -28,6 +28,8 @@ pub enum ROp {
     Chunks(u8),
     /// `read_to_end` (terminal)
     ToEnd,
+    /// `read_to_end` into `Vec::with_capacity(cap)` (terminal)
+    ToEndCap(u16),
 }
 
 #[derive(Debug, Clone, Copy, Serialize, Deserialize)]
@@ -209,7 +211,7 @@ fn wop() -> impl Strategy<Value = WOp> + Clone {
 }
 
 fn rop() -> impl Strategy<Value = ROp> + Clone {
-    prop_oneof![4 => sizes().prop_map(ROp::Read), 3 => sizes().prop_map(ROp::Chunk), 2 => (1u8..6).prop_map(ROp::Chunks), 1 => Just(ROp::ToEnd)]
+    prop_oneof![4 => sizes().prop_map(ROp::Read), 3 => sizes().prop_map(ROp::Chunk), 2 => (1u8..6).prop_map(ROp::Chunks), 1 => Just(ROp::ToEnd), 1 => sizes().prop_map(ROp::ToEndCap)]
 }
 
 fn stream() -> impl Strategy<Value = StreamSpec> + Clone {
